@@ -20,9 +20,9 @@ INVARIANT_OWNER = {"NoPanicSite": "C01", "IgnoreErrorsOk": "C01", "RelationsHold
 PLAN = {
     # family -> (generator, [(MaxArgv, with_invariants)])
     "quick": [("core", 2, True), ("core", 3, False), ("act", 3, True), ("src", 2, True), ("tree", 2, True), ("tree", 3, False),
-              ("rel", 2, True), ("relx", 3, True), ("core+ie", 2, True), ("tree+ie", 2, True)],
+              ("rel", 2, True), ("relx", 3, True), ("core+ie", 2, True), ("tree+ie", 2, True), ("src+ie", 2, True)],
     "thorough": [("core", 3, True), ("core", 4, False), ("act", 4, True), ("src", 3, True), ("tree", 3, True), ("tree", 4, False),
-                 ("rel", 3, True), ("relx", 4, True), ("core+ie", 3, True), ("tree+ie", 3, True), ("act+ie", 3, True)],
+                 ("rel", 3, True), ("relx", 4, True), ("core+ie", 3, True), ("tree+ie", 3, True), ("act+ie", 3, True), ("src+ie", 3, True)],
 }
 RECORD = {"quick": (6000, 10), "thorough": (120000, 24)}
 
